@@ -194,6 +194,138 @@ theorem digitsResult_exact {base : Nat} (hb : 2 ≤ base) (hb36 : base ≤ 36) (
         have := (loop_exact hb hb36 (c :: cs) 0 n (by decide) (by decide) h).1
         simp [this]
 
+
+/-- result of `parseInt`: NaN or a signed exact integer (`neg ∧ n = 0` is `-0`) to be rounded once -/
+inductive PRes where
+  | nan
+  | val (neg : Bool) (n : Int)
+deriving DecidableEq, Repr
+
+def isHexPrefix : List Nat → Bool
+  | 0x30 :: x :: _ => decide (x = 0x78 ∨ x = 0x58)
+  | _ => false
+
+/-- builtin_global.go `parseInt(s, base)` on the trimmed text, `base` = ToInt32(radix) -/
+def mech (t : List Nat) (base : Int) : PRes :=
+  if t.isEmpty then .nan else                                   -- len(s) < 1
+  let sign := decide (t.head? = some 0x2D)
+  let s := if t.head? = some 0x2D ∨ t.head? = some 0x2B then t.drop 1 else t
+  if s.isEmpty then .nan else                                   -- len(s) < 1 after the sign
+  -- "Look for hex prefix": s[0]=='0' && len(s)>1 && (s[1]=='x'||'X'), only when base is 0 or 16
+  let strip := isHexPrefix s && (decide (base = 0) || decide (base = 16))
+  let s2 := if strip then s.drop 2 else s
+  let b2 : Int := if strip then 16 else base
+  if s2.isEmpty then .nan                                       -- case len(s) < 1
+  else
+    let b3 : Option Nat :=
+      if 2 ≤ b2 ∧ b2 ≤ 36 then some b2.toNat                    -- valid base
+      else if b2 = 0 then some 10                               -- base == 0 (a hex prefix was already consumed above)
+      else none                                                 -- invalid base
+    match b3 with
+    | none => .nan
+    | some b =>
+      match digitsResult b s2 with
+      | none => .nan                                            -- i == 0
+      | some n => .val sign n                                   -- sign ∧ n = 0 ↦ _negativeZero, else intToValue(±n)
+
+/-- ECMA-262 19.2.5 parseInt(string, radix), steps 3-16, on the trimmed text; `R` = ToInt32(radix) -/
+def spec (t : List Nat) (R : Int) : PRes :=
+  let sign := decide (t.head? = some 0x2D)                                              -- 4
+  let s := if t.head? = some 0x2D ∨ t.head? = some 0x2B then t.drop 1 else t             -- 5
+  if R ≠ 0 ∧ (R < 2 ∨ R > 36) then .nan                                                 -- 8.a
+  else
+    let stripPrefix := decide (R = 0) || decide (R = 16)                                 -- 7, 8.b
+    let R1 : Int := if R = 0 then 10 else R                                             -- 9
+    let strip := stripPrefix && isHexPrefix s                                            -- 10
+    let s2 := if strip then s.drop 2 else s
+    let R2 : Int := if strip then 16 else R1
+    -- 11-16: Z = longest prefix of radix-R2 digits; empty → NaN; else the exact value, with the sign (−0 for a zero)
+    match s2 with
+    | [] => .nan
+    | c :: _ =>
+      if StrNum.digitVal c ≥ R2.toNat then .nan
+      else .val sign (exact R2.toNat 0 s2)
+
+theorem digits_cons {b : Nat} (hb : 2 ≤ b) (hb36 : b ≤ 36) (sign : Bool) (c : Nat) (cs : List Nat) :
+    (match digitsResult b (c :: cs) with
+      | none => PRes.nan
+      | some n => PRes.val sign n) =
+    if StrNum.digitVal c ≥ b then PRes.nan else PRes.val sign (exact b 0 (c :: cs)) := by
+  rw [digitsResult_exact hb hb36]
+  simp only
+  by_cases h : StrNum.digitVal c ≥ b
+  · simp only [h, if_true]
+  · simp only [h, if_false]
+
+/-- **`parseInt` = ECMA-262 parseInt**, for every trimmed text and every radix: sign, `0x` prefix, radix validation,
+and the exact value of the longest digit prefix (to be rounded once to the nearest double). -/
+theorem mech_eq_spec (t : List Nat) (R : Int) : mech t R = spec t R := by
+  unfold mech spec
+  by_cases hte : t.isEmpty = true
+  · have : t = [] := by simpa using hte
+    subst this
+    simp only [List.isEmpty_nil, if_true]
+    by_cases hR : R ≠ 0 ∧ (R < 2 ∨ R > 36)
+    · rw [if_pos hR]
+    · rw [if_neg hR]; simp [isHexPrefix]
+  · simp only [hte, Bool.false_eq_true, if_false]
+    generalize hs : (if t.head? = some 0x2D ∨ t.head? = some 0x2B then t.drop 1 else t) = s
+    generalize decide (t.head? = some 0x2D) = sign
+    by_cases hR : R ≠ 0 ∧ (R < 2 ∨ R > 36)
+    · -- invalid radix: never 0 or 16, so no prefix is stripped and the base test fails
+      rw [if_pos hR]
+      have h0 : ¬ R = 0 := hR.1
+      have h16 : ¬ R = 16 := by omega
+      have hv : ¬ (2 ≤ R ∧ R ≤ 36) := by omega
+      have hstrip : (isHexPrefix s && (decide (R = 0) || decide (R = 16))) = false := by simp [h0, h16]
+      simp only [hstrip, Bool.false_eq_true, if_false]
+      simp only [hv, h0, if_false]
+      by_cases h1 : s.isEmpty = true
+      · simp only [h1, if_true]
+      · simp only [h1, Bool.false_eq_true, if_false]
+    · rw [if_neg hR]
+      by_cases hse : s.isEmpty = true
+      · have : s = [] := by simpa using hse
+        subst this
+        simp [isHexPrefix]
+      · simp only [hse, Bool.false_eq_true, if_false]
+        by_cases hstrip : (isHexPrefix s && (decide (R = 0) || decide (R = 16))) = true
+        · have hstrip' : ((decide (R = 0) || decide (R = 16)) && isHexPrefix s) = true := by
+            rw [Bool.and_comm]; exact hstrip
+          simp only [hstrip, hstrip', if_true]
+          have hv : (2 : Int) ≤ 16 ∧ (16 : Int) ≤ 36 := by decide
+          simp only [hv, and_self, if_true]
+          have e16 : (16 : Int).toNat = 16 := rfl
+          rw [e16]
+          cases hd : s.drop 2 with
+          | nil => simp
+          | cons c cs =>
+            simp only [List.isEmpty_cons, Bool.false_eq_true, if_false]
+            exact digits_cons (by decide) (by decide) sign c cs
+        · have hstrip1 : (isHexPrefix s && (decide (R = 0) || decide (R = 16))) = false := by simpa using hstrip
+          have hstrip' : ((decide (R = 0) || decide (R = 16)) && isHexPrefix s) = false := by
+            rw [Bool.and_comm]; exact hstrip1
+          simp only [hstrip1, hstrip', Bool.false_eq_true, if_false, hse]
+          cases s with
+          | nil => simp at hse
+          | cons c cs =>
+            by_cases h0 : R = 0
+            · subst h0
+              have hv : ¬ ((2 : Int) ≤ 0 ∧ (0 : Int) ≤ 36) := by decide
+              simp only [hv, if_false, if_true]
+              have e10 : (10 : Int).toNat = 10 := rfl
+              rw [e10]
+              exact digits_cons (by decide) (by decide) sign c cs
+            · have hv : 2 ≤ R ∧ R ≤ 36 := by omega
+              simp only [hv, and_self, if_true, h0, if_false]
+              exact digits_cons (by omega) (by omega) sign c cs
+
+
+/-- the double `parseInt` returns: the exact value rounded once (ties to even), `-0` for a negative zero -/
+def PRes.toF64 : PRes → F64
+  | .nan => F64.canonNaN
+  | .val neg n => if n = 0 then ⟨neg, 0, 0, by decide, by decide⟩ else F64.ofInt (if neg then -n else n)
+
 /-- ASCII code points of a digit string -/
 def cps (s : String) : List Nat := s.toList.map Char.toNat
 
